@@ -41,6 +41,41 @@ TEXT = {
                       "times (comparisons only); induction schema behind the root-minimality axiom (its step is proved); "
                       "HeapScheduler.__getstate__/__setstate__ are outside the subset (see C19)",
     },
+    "C08": {
+        "technique": "contract-based: wiring lemma (inductiveness VC per shipped .ini from the parsed tagger lists and AST-derived handler/tagger frames, discharged by z3) + run-time contract monitors on the real classes (wrapped from outside) during real runs of the 17 runnable shipped configurations - a BOUNDED stand-in, labelled as such and never counted as proved",
+        "level_text": "for each of the 19 shipped configurations: no candidate event survives a commit that changes the motion of a unit it depends on (every motion-changing handler trashes every activated interaction tagger; proved as part of the inductive invariant W); the bookkeeping of TagActivator itself is monitored, not proved",
+        "level_note": "trusted: frames are derived syntactically (stores to .velocity / velocity-changing helpers reachable from send_out_state); TagActivator / scheduler protocol covered by the bounded monitor only (4000 events per configuration in quick); harness-generated configurations are not covered",
+    },
+    "C09": {
+        "technique": "contract-based: wiring lemma (inductiveness VC per shipped .ini, z3) + run-time contract monitors on the real classes (wrapped from outside) during real runs of the 17 runnable shipped configurations - a BOUNDED stand-in, labelled as such and never counted as proved",
+        "level_text": "for each of the 19 shipped configurations the create/trash/activate/deactivate lists make 'pending events == fresh start' inductive over all reachable activation vectors (1200+ step obligations); pending == fresh and pool sizes additionally monitored at every event",
+        "level_note": "trusted: tagger read sets / handler frames from an AST scan; multiset equality inside TagActivator is covered by the bounded monitor only",
+    },
+    "C07": {
+        "technique": "run-time contract monitors on the real classes (wrapped from outside) during real runs of the 17 runnable shipped configurations - a BOUNDED stand-in, labelled as such and never counted as proved",
+        "level_text": "bounded: continuity of every commit (new position = old position + old velocity x elapsed time mod L), non-decreasing event times, exactly one chain with the initial speed, positions in the box, identities and charges constant; checked on every committed event of every runnable shipped configuration up to the stated bound",
+        "level_note": "this is a bounded check (4000 events per configuration in quick, 40000 in thorough), not a proof; deductive obligations for the functions behind this property are listed in DESIGN.md as work in progress",
+    },
+    "C11": {
+        "technique": "run-time contract monitors on the real classes (wrapped from outside) during real runs of the 17 runnable shipped configurations - a BOUNDED stand-in, labelled as such and never counted as proved",
+        "level_text": "bounded: after every activator update every relevant unit is recorded exactly once in the cell containing its position, the active unit only as active, occupant limits respected; checked on every committed event of every runnable shipped configuration up to the stated bound",
+        "level_note": "this is a bounded check (4000 events per configuration in quick, 40000 in thorough), not a proof; deductive obligations for the functions behind this property are listed in DESIGN.md as work in progress",
+    },
+    "C12": {
+        "technique": "run-time contract monitors on the real classes (wrapped from outside) during real runs of the 17 runnable shipped configurations - a BOUNDED stand-in, labelled as such and never counted as proved",
+        "level_text": "bounded: at every commit the composite velocity equals the weighted sum of its point masses' velocities and its position advanced to the event time is their barycentre; checked on every committed event of every runnable shipped configuration up to the stated bound",
+        "level_note": "this is a bounded check (4000 events per configuration in quick, 40000 in thorough), not a proof; deductive obligations for the functions behind this property are listed in DESIGN.md as work in progress",
+    },
+    "C13": {
+        "technique": "run-time contract monitors on the real classes (wrapped from outside) during real runs of the 17 runnable shipped configurations - a BOUNDED stand-in, labelled as such and never counted as proved",
+        "level_text": "bounded: the global state read back before a commit equals the one read after the previous commit (nothing but commits changes it); checked on every committed event of every runnable shipped configuration up to the stated bound",
+        "level_note": "this is a bounded check (4000 events per configuration in quick, 40000 in thorough), not a proof; deductive obligations for the functions behind this property are listed in DESIGN.md as work in progress",
+    },
+    "C17": {
+        "technique": "run-time contract monitors on the real classes (wrapped from outside) during real runs of the 17 runnable shipped configurations - a BOUNDED stand-in, labelled as such and never counted as proved",
+        "level_text": "bounded: every written sample state has all moving units advanced to the sample time and the sample time is a multiple of the interval; checked on every committed event of every runnable shipped configuration up to the stated bound",
+        "level_note": "this is a bounded check (4000 events per configuration in quick, 40000 in thorough), not a proof; deductive obligations for the functions behind this property are listed in DESIGN.md as work in progress",
+    },
 }
 
 NOT_APPLICABLE = {
